@@ -107,6 +107,8 @@ type Exec struct {
 	Tags        map[int]string // harness-given names of objects (vTag)
 	stubCalls   map[string]int
 	LockRules   []LockRule
+	UFFresh     bool // math functions as fresh variables per site instead of uninterpreted functions
+	ufFreshVars map[string]*Term
 	Concrete    map[string]string // when set, inputs are these concrete values (interpreter replay)
 	PruneIf     bool              // ask the solver at every symbolic branch whether each side is feasible
 	Deadline    time.Time
@@ -158,7 +160,7 @@ func NewExec(prog *ssa.Program, pkg *ssa.Package, mode string) *Exec {
 		inputBy: map[string]*Term{}, axiomSeen: map[string]bool{}, ufSites: map[string][]*Term{},
 		UFUsed: map[string]int{}, Known: map[string]bool{}, Unwind: 40, MaxTerms: 3000000, MaxIters: 200000,
 		finfo: map[*ssa.Function]*FuncInfo{}, FuncsSeen: map[string]string{}, Stubs: map[string]int{},
-		FloatSites: map[string]string{}, LemmaPoints: map[string][]float64{}, Tags: map[int]string{}, stubCalls: map[string]int{}}
+		FloatSites: map[string]string{}, LemmaPoints: map[string][]float64{}, Tags: map[int]string{}, stubCalls: map[string]int{}, ufFreshVars: map[string]*Term{}}
 	switch mode {
 	case "R", "":
 		e.F = &ArithR{S: s}
